@@ -8,6 +8,7 @@ import (
 	"time"
 
 	"github.com/safing/portbase/database"
+	"github.com/safing/portbase/database/record"
 	_ "github.com/safing/portbase/database/storage/hashmap"
 	"github.com/safing/portbase/utils"
 	rt "github.com/safing/portbase/zz_verifrt"
@@ -317,6 +318,61 @@ func VerifC13_Sub() {
 		rt.Assert(kinds[2] == "done", "sub/done-after-cancel")
 	}
 	rt.Reach("sub-end")
+}
+
+// a subscriber whose connection has stalled (its feed has filled up) does not
+// wedge writers: a matching write is still answered, exactly once
+func VerifC13_StalledSubscriberDoesNotWedgeWriters() {
+	rt.SchedYieldOnly(true)
+	rt.CodecFaults(false)
+	api := c13Setup()
+	api.Handle(c13Msg("s5", "sub", "query tdb:s/"))
+	rt.Quiesce(time.Second)
+	// the client stops reading: replies of the subscription block
+	gate := make(chan struct{})
+	c13OnReply = func(data []byte) {
+		if bytes.HasPrefix(data, []byte("s5|")) {
+			<-gate
+		}
+	}
+	api.Handle(append(c13Msg("w0", "create", "tdb:s/first|"), 'J', '{', '}'))
+	rt.Quiesce(time.Second) // the subscription's handler is stuck sending the notification
+	api.subsLock.Lock()
+	sub := api.subs["s5"]
+	api.subsLock.Unlock()
+	rt.Assert(sub != nil, "stalled/subscription-registered")
+	if sub == nil {
+		return
+	}
+	// updates pile up behind it until the feed is full
+	filler, err := record.NewWrapper("tdb:s/filler", nil, 'J', []byte("{}"))
+	rt.Assert(err == nil, "stalled/setup")
+	for len(sub.Feed) < cap(sub.Feed) {
+		sub.Feed <- filler
+	}
+	before := len(c13Replies)
+	api.Handle(append(c13Msg("w1", "create", "tdb:s/new|"), 'J', '{', '}'))
+	rt.Quiesce(time.Second)
+	n := 0
+	for _, r := range c13Replies[before:] {
+		if bytes.HasPrefix(r, []byte("w1|")) {
+			n++
+			rt.Assert(c13Kind(r) == "success", "stalled/write-succeeds")
+		}
+	}
+	rt.Assert(n == 1, "stalled/write-answered-exactly-once")
+	// another request on the same connection is served as well
+	api.Handle(c13Msg("g1", "get", "tdb:s/new"))
+	rt.Quiesce(time.Second)
+	got := false
+	for _, r := range c13Replies[before:] {
+		if bytes.HasPrefix(r, []byte("g1|ok|")) {
+			got = true
+		}
+	}
+	rt.Assert(got, "stalled/get-still-served")
+	close(gate)
+	rt.Reach("stalled-end")
 }
 
 // ---- O5: cancels racing with each other and with the connection shutdown:
